@@ -78,11 +78,23 @@ Theorem C02_undisciplined_refuted :
   (exists t, disciplined t = false /\ op_ok t = Some false /\ durable (log_sem t) = [1]).
 Proof. exact undisciplined_refuted. Qed.
 
-(** Static obligation over the table regenerated from the current source: every write method
-    of the wallet backend has one of the accepted transaction shapes. *)
+(** Static obligation over the table regenerated from the current source: every method of the
+    write traits (WalletWrite, OutputLockStore, WalletCommitmentTrees: enumerated from the trait
+    definitions, cfg-gated methods included; a method the connection-owning impl does not
+    override is judged on the trait's default body) and every store write has one of the accepted
+    transaction shapes — except the one visible known finding [known_nonatomic]. *)
 Theorem C02_all_methods_bracketed :
-  forallb (fun p => atomic_shape (snd p)) shapes = true.
+  forallb (fun p => atomic_shape (snd p) || known_nonatomic (fst p)) shapes = true.
 Proof. exact all_methods_bracketed. Qed.
+
+(** The known finding: remove_retained_checkpoints_below on a connection-owning WalletDb runs the
+    trait default, one transaction per pool; the observed trace (two commits) is rejected by the
+    checker and a crash between the commits leaves a third state in the reference semantics. *)
+Theorem C02_remove_retained_not_atomic_refuted :
+  lookup_shape "WalletCommitmentTrees::remove_retained_checkpoints_below" shapes = Some Other /\
+  exists t p r, disciplined t = false /\ t = p ++ r /\
+    durable (log_sem (p ++ [Crash])) = [126] /\ durable (log_sem t) = [126; 98].
+Proof. exact remove_retained_not_atomic_refuted. Qed.
 
 (** Static obligation over the regenerated list of places, in the non-test code of the wallet
     backend (lib.rs, wallet.rs, wallet/*.rs, pool_migration/*.rs), where the Result of an
